@@ -11,7 +11,7 @@ def tasks(tier):
             # (the delay of a connection across group boundaries: group_path / connect_interval, served under C11)
             + contract_tasks("contracts.groups", "C11", tier=tier) + lemma_tasks("contracts.groups", "C11")
             # (tiered time arithmetic: '+' and '<' on times and delays, served under C08)
-            + contract_tasks("contracts.tiered_time", "C08"))
+            + contract_tasks("contracts.tiered_time", "C08") + other_tasks("contracts.connect_bounded", "C01", "bounded"))
             + other_tasks("contracts.closure", "C01", "bounded"))
 
 
